@@ -1141,6 +1141,107 @@ def result {α : Type} (m : W α) (w : World) : Option α :=
   | .ok a _ => some a
   | .panic _ _ => none
 
+
+/-! Worlds around one `cache.addTable` / `cache.removeTable` call, to instantiate `TableAdded` /
+    `TableRemoved` with the model's own steps. -/
+
+/-- after `setup` -/
+def wA : World := (setup (World.init 2 2)).state
+def p2 : Ent := ((result setup (World.init 2 2)).map (·.2.1)).getD Ent.zero
+/-- after `addChild p2`: table 2 was created in archetype 1 and announced to the cache -/
+def wB : World := (addChild p2 wA).state
+/-- `wB` with the cache rolled back: the state in which `createTable` calls `cache.addTable` -/
+def wB0 : World := { wB with cache := wA.cache }
+/-- `wB` after the storage part of freeing table 1 (`archetype.FreeTable` + `isFree`), the state
+    in which `cleanupArchetypes` calls `cache.removeTable` -/
+def wR : World := (wB.modArch 1 fun A => A.freeTable 1).modTbl 1 fun T => { T with isFree := true }
+
+/-- Two archetypes with the given active tables, three or fewer tables: the shape of all demo
+    worlds. -/
+structure Shape (w : World) (t0 t1 : List Nat) (nt : Nat) : Prop where
+  lenA : w.archetypes.length = 2
+  lenT : w.tables.length = nt
+  a0 : w.archetypes[0]? = some (w.arch 0)
+  a1 : w.archetypes[1]? = some (w.arch 1)
+  t0 : (w.arch 0).tables.tables = t0
+  t1 : (w.arch 1).tables.tables = t1
+
+theorem shape_wA : Shape wA [0] [1] 2 := by
+  refine ⟨?_, ?_, ?_, ?_, ?_, ?_⟩ <;> decide +kernel
+theorem shape_wB0 : Shape wB0 [0] [1, 2] 3 := by
+  refine ⟨?_, ?_, ?_, ?_, ?_, ?_⟩ <;> decide +kernel
+theorem shape_wB : Shape wB [0] [1, 2] 3 := by
+  refine ⟨?_, ?_, ?_, ?_, ?_, ?_⟩ <;> decide +kernel
+theorem shape_wR : Shape wR [0] [2] 3 := by
+  refine ⟨?_, ?_, ?_, ?_, ?_, ?_⟩ <;> decide +kernel
+
+theorem Shape.none_ge {w : World} {t0 t1 : List Nat} {nt : Nat} (h : Shape w t0 t1 nt)
+    {a : Nat} (ha : 2 ≤ a) : w.archetypes[a]? = none :=
+  List.getElem?_eq_none (by rw [h.lenA]; exact ha)
+
+theorem Shape.tbl_ge {w : World} {t0 t1 : List Nat} {nt : Nat} (h : Shape w t0 t1 nt)
+    {t : Nat} (ht : nt ≤ t) : w.tbl t = default := by
+  unfold tbl
+  rw [List.getD_eq_getElem?_getD, List.getElem?_eq_none (by rw [h.lenT]; exact ht)]; rfl
+
+/-- which tables are active in a world of this shape -/
+theorem Shape.active {w : World} {t0 t1 : List Nat} {nt : Nat} (h : Shape w t0 t1 nt)
+    {a : Nat} {B : Archetype} (hB : w.archetypes[a]? = some B) :
+    (a = 0 ∧ B = w.arch 0 ∧ B.tables.tables = t0) ∨ (a = 1 ∧ B = w.arch 1 ∧ B.tables.tables = t1) := by
+  by_cases h0 : a = 0
+  · subst h0; rw [h.a0] at hB; injection hB with hB; subst hB; exact Or.inl ⟨rfl, rfl, h.t0⟩
+  by_cases h1 : a = 1
+  · subst h1; rw [h.a1] at hB; injection hB with hB; subst hB; exact Or.inr ⟨rfl, rfl, h.t1⟩
+  have h2 : 2 ≤ a := by omega
+  rw [h.none_ge h2] at hB; cases hB
+
+theorem demo_tableAdded : TableAdded wA wB0 1 2 := by
+  refine { other := ?_, here := ?_, tbl := ?_, cache := by decide +kernel, inactive := ?_, active := ?_,
+           back := by decide +kernel }
+  · intro a' h
+    by_cases h0 : a' = 0
+    · subst h0; decide +kernel
+    have h2 : 2 ≤ a' := by omega
+    rw [shape_wB0.none_ge h2, shape_wA.none_ge h2]
+  · refine ⟨wA.arch 1, wB0.arch 1, shape_wA.a1, shape_wB0.a1, by decide +kernel, ?_⟩
+    intro t' ht
+    rw [shape_wA.t1, shape_wB0.t1]
+    simp only [List.mem_cons, List.not_mem_nil, or_false]
+    omega
+  · intro t' ht
+    by_cases h0 : t' = 0
+    · subst h0; decide +kernel
+    by_cases h1 : t' = 1
+    · subst h1; decide +kernel
+    have h3 : 3 ≤ t' := by omega
+    rw [shape_wB0.tbl_ge h3, shape_wA.tbl_ge (Nat.le_of_succ_le h3)]
+  · intro a' B hB
+    rcases shape_wA.active hB with ⟨_, _, ht⟩ | ⟨_, _, ht⟩ <;> rw [ht] <;> simp
+  · intro A' hA'
+    rw [shape_wB0.a1] at hA'; injection hA' with hA'; subst hA'; rw [shape_wB0.t1]; simp
+
+theorem demo_tableRemoved : TableRemoved wB wR 1 1 := by
+  refine { other := ?_, here := ?_, tbl := ?_, cache := by decide +kernel, inactive := ?_ }
+  · intro a' h
+    by_cases h0 : a' = 0
+    · subst h0; decide +kernel
+    have h2 : 2 ≤ a' := by omega
+    rw [shape_wR.none_ge h2, shape_wB.none_ge h2]
+  · refine ⟨wB.arch 1, wR.arch 1, shape_wB.a1, shape_wR.a1, by decide +kernel, ?_⟩
+    intro t' ht
+    rw [shape_wB.t1, shape_wR.t1]
+    simp only [List.mem_cons, List.not_mem_nil, or_false]
+    omega
+  · intro t' ht
+    by_cases h0 : t' = 0
+    · subst h0; decide +kernel
+    by_cases h2 : t' = 2
+    · subst h2; decide +kernel
+    have h3 : 3 ≤ t' := by omega
+    rw [shape_wR.tbl_ge h3, shape_wB.tbl_ge h3]
+  · intro a' B hB
+    rcases shape_wR.active hB with ⟨_, _, ht⟩ | ⟨_, _, ht⟩ <;> rw [ht] <;> simp
+
 end CacheDemo
 end World
 end Ark
